@@ -54,7 +54,8 @@ class InducingPointKernel(Kernel):
         else:
             res = to_dense(self.base_kernel(self.inducing_points, self.inducing_points))
             if not self.training:
-                self._cached_kernel_mat = res
+                # (a cache that keeps its autograd graph cannot be back-propagated through by more than one prediction)
+                self._cached_kernel_mat = res.detach() if settings.detach_test_caches.on() else res
             return res
 
     @property
@@ -68,7 +69,7 @@ class InducingPointKernel(Kernel):
 
             res = inv_root
             if not self.training:
-                self._cached_kernel_inv_root = res
+                self._cached_kernel_inv_root = res.detach() if settings.detach_test_caches.on() else res
             return res
 
     def _get_covariance(self, x1, x2):
